@@ -167,6 +167,9 @@ def run_property(pid, tier, seed):
               assumptions=COMMON_ASSUMPTIONS + b.assumptions, wall_s=round(wall, 2), violations=len(violations))
     os.makedirs(os.path.join(VERIF, "evidence"), exist_ok=True)
     json.dump(ev, open(os.path.join(VERIF, "evidence", f"{pid}.json"), "w"), indent=1)
+    if os.environ.get("TPV_VERBOSE"):
+        for o, r in zip(obs, results):
+            print(f"  {r['verdict']:10s} {r['backend']:10s} {r.get('seconds', 0):6.2f}s  {o.oid}   [{o.clause[:70]}]")
     for ln in lines:
         print(ln)
     print(f"[{pid}] tier={tier} obligations={n_ob} discharged={n_dis} known-findings={n_known} violations={len(violations)} "
